@@ -21,7 +21,7 @@ MUL_FUNCS = ['add_mul', 'add_mul_karatsuba', 'add_mul_karatsuba_with_efficient_s
              'add_mul_wallace', 'add_mul_pow2_m1']
 REQUIRED = {('mon:%s.checked' % f): 8 for f in MUL_FUNCS + ['generate_mul', 'generate_square', 'add_square', 'add_square_pow2_m1']}
 REQUIRED.update({'reach:karatsuba_recursive': 2, 'reach:square_split': 1, 'endian:big': 20, 'host:internal': 10,
-                 'unequal_widths': 20, 'width_one': 10, 'skewed_shapes': 30})
+                 'unequal_widths': 20, 'width_one': 10, 'skewed_shapes': 30, 'chained_call': 20})
 for _m in ('DEFAULT', 'KARATSUBA', 'ALTER', 'DADDA', 'WALLACE', 'POW2_M1'):
     REQUIRED['mulmode:' + _m] = 8
 
@@ -211,6 +211,8 @@ def run_item(item, ctx, host_case=None):
                 with monitor.suspended():
                     c = netgen.build(host)
                 ctx.count('host:' + host_case['mode'])
+                if _frng.random() < 0.3:
+                    A.under_construction(c, _frng, ctx)
                 a, b = host_case['operands']
             else:
                 from cirbo.core.circuit import Circuit
@@ -221,9 +223,30 @@ def run_item(item, ctx, host_case=None):
                 ctx.count('reach:karatsuba_recursive')
             A.CUR['intended_operands'] = [list(a), list(b)]
             if host_case and host_case.get('same_list_object'):
-                getattr(ar, what)(c, a, b, big_endian=be)
+                first = getattr(ar, what)(c, a, b, big_endian=be)
             else:
-                getattr(ar, what)(c, A.flavour(_frng, a, ctx), A.flavour(_frng, b, ctx), big_endian=be)
+                first = getattr(ar, what)(c, A.flavour(_frng, a, ctx), A.flavour(_frng, b, ctx), big_endian=be)
+            # a circuit under construction: further generator calls on the same circuit while the first result is still
+            # waiting to be consumed (p = a*b, then q = c*d, then p*q or p+q ...) - each call is judged by the same
+            # monitor, for which the earlier result is one more pre-existing gate
+            if n * m <= 16 and _frng.random() < 0.6:
+                prev = [list(first)]
+                for step in range(_frng.randint(1, 2)):
+                    w2 = _frng.choice(list(MUL_FUNCS) + ['add_square'])
+                    pool = list(c.inputs) + [l for r_ in prev for l in r_]
+                    if _frng.random() < 0.5:
+                        pool = list(c.inputs)
+                    a2 = [_frng.choice(pool) for _ in range(_frng.randint(1, 3))]
+                    b2 = [_frng.choice(pool) for _ in range(_frng.randint(1, 3))]
+                    be2 = _frng.random() < 0.4
+                    ctx.count('chained_call')
+                    ctx.count('chained_call:' + w2)
+                    if w2 == 'add_square':
+                        A.CUR['intended_operands'] = [list(a2)]
+                        prev.append(list(ar.add_square(c, list(a2), big_endian=be2)))
+                    else:
+                        A.CUR['intended_operands'] = [list(a2), list(b2)]
+                        prev.append(list(getattr(ar, w2)(c, list(a2), list(b2), big_endian=be2)))
     except Exception as e:
         ctx.unexpected(str(what), e, case)
     ctx.case('%s|%s|%s|%s|%s' % (what, n, m, be, host_case and host_case['mode']), (m is None and n >= 2) or (m is not None and n >= 2 and m >= 2),
